@@ -6,3 +6,18 @@ open TruthModel.C10
 #print axioms each_ident_resolved_once
 #print axioms rename_invariant
 #print axioms rename_invariant_block
+#print axioms initial_ribs_stacks
+#print axioms global_var_precedence
+#print axioms global_func_precedence
+#print axioms enum_const_shadows_builtin_and_alias
+#print axioms builtin_shadows_alias
+#print axioms alias_invisible_in_const_context
+#print axioms alias_only_of_own_language
+#print axioms declaration_shadows_globals
+#print axioms func_body_stacks
+#print axioms body_item_shadows_param
+#print axioms param_visible_unless_body_item
+#print axioms excess_args_skipped
+#print axioms args_without_signature
+#print axioms funcDecl_declares_only_its_name
+#print axioms times_clobber_is_a_use
